@@ -443,11 +443,17 @@ inline bool match_filter(const std::string &name, const std::string &filter) {
 
 inline void run_one(Ctx &c) {
     int asan_before = g_asan_hits, tsan_before = g_tsan_hits;
+    // The witness producer captures locals of the case function: it must not be called once that function has returned or
+    // been unwound. Violations raised here carry no spec; the driver recovers the input by re-running the case with
+    // --x-predump 1 (the case is a pure function of seed, configuration and case index).
     try {
         c.cfg.fn(c);
+        c.dumper = nullptr;
     } catch (const std::exception &e) {
+        c.dumper = nullptr;
         c.violation("unexpected_exception", J().str("what", e.what()).str("type", typeid(e).name()));
     } catch (...) {
+        c.dumper = nullptr;
         c.violation("unexpected_exception", J().str("what", "non-std exception"));
     }
     if (g_asan_hits != asan_before)
